@@ -200,4 +200,15 @@ Proof.
              fuel name None kw t Ht Hd), Hv in H.
   now injection H as <- _.
 Qed.
+
+(* an ite in arithmetic scope whose guard is a declared Boolean variable *)
+Lemma leaf_ite_guard : forall name t gb a b kw, k_t kw = Some t ->
+  nodef defs defs_mem kw name = true ->
+  d_var_flatten var_id t name (py_truth (k_prime kw)) = Some (RStr gb) ->
+  leaves_ok a kw -> leaves_ok b kw ->
+  leaves_ok (AIte (PNode "Var" name []) gb a b) kw.
+Proof.
+  intros name t gb a b kw Ht Hd Hv La Lb. cbn [leaves_ok]. repeat split; auto.
+  intros fuel r st H. exact (guard_var name t gb kw fuel r st Ht Hd Hv H).
+Qed.
 End FlatBridge.
